@@ -435,8 +435,10 @@ static inline int vnadata_set_matrix(vnadata_t *vdp, int findex,
 	return -1;
     }
 #endif /* VNADATA_NO_BOUNDS_CHECK */
-    (void)memcpy((void *)vdp->vd_data[findex], (void *)matrix,
-	vdp->vd_rows * vdp->vd_columns * sizeof(double complex));
+    if (vdp->vd_rows * vdp->vd_columns > 0) {
+	(void)memcpy((void *)vdp->vd_data[findex], (void *)matrix,
+	    vdp->vd_rows * vdp->vd_columns * sizeof(double complex));
+    }
     return 0;
 }
 
